@@ -84,8 +84,17 @@ impl InsertionContext {
 
     /// Restores valid context state.
     pub fn restore(&mut self) {
-        self.problem.goal.accept_solution_state(&mut self.solution);
+        // NOTE values aggregated over all routes (e.g. work balance) should not see routes without jobs
+        // as these are not a part of the restored solution
         self.solution.remove_empty_routes();
+        self.problem.goal.accept_solution_state(&mut self.solution);
+
+        // NOTE a state update can leave a route without jobs (e.g. when a marker job is removed)
+        let routes = self.solution.routes.len();
+        self.solution.remove_empty_routes();
+        if routes != self.solution.routes.len() {
+            self.problem.goal.accept_solution_state(&mut self.solution);
+        }
     }
 }
 
